@@ -1,6 +1,7 @@
 import JediModel.Gen.C20
 import JediModel.Lemmas.SysPath
 import JediModel.Model.ProjFile
+import JediModel.Lemmas.DefaultProject
 /-! # C20 — Project settings round-trip and shape sys.path as documented
 
 Property theorems only.  `sysPath` is `Project._get_sys_path` with the composition order and the
@@ -351,6 +352,76 @@ theorem append_keeps_old (o new : Str) (h : o ≠ []) : write .append (some o) n
   exact h this
 
 end history
+
+/-! ## default project discovery (`get_default_project`)
+
+Which directory becomes the project when the user names none decides what "the project directory
+comes first" means for a Script without an explicit project.  The walk is transcribed in
+`Model/DefaultProject`; the file-system answers per directory are a parameter.  The theorems are
+over every chain of directories (any depth). -/
+section DefaultProject
+open JediModel.DefaultProject
+
+/-- the loop of the source, statement by statement (read by the translator) -/
+theorem default_project_source_shape :
+    JediModel.Gen.C20.defaultProjectSteps =
+      ["try-load", "except(FileNotFoundError,IsADirectoryError,PermissionError):pass",
+       "except(NotADirectoryError):continue", "if first_no_init_file is None",
+       "if __init__.py exists:continue", "elif not is_file:first_no_init_file=dir",
+       "if django:return", "if probable_path is None and potential:probable_path=dir",
+       "after:probable", "after:first_no_init_file", "after:curdir"] := by decide
+
+/-- **The default project is a directory of the walk** (the start path or one of its parents) -
+never anything else; only when no directory qualifies it is the start directory itself (`curdir`). -/
+theorem default_project_in_chain (chain : List Dir) (d : Nat)
+    (h : (defaultProject chain).dir? = some d) : ∃ x ∈ chain, x.id = d := by
+  simpa using walk_in {} [] chain (by intro q hq; cases hq) (by intro q hq; cases hq) d h
+
+/-- **The innermost saved configuration wins**: if no directory further in has a loadable
+`.jedi/project.json` or is a Django root, the first directory with a configuration is the project -
+whatever lies above it. -/
+theorem default_project_innermost_config (pre post : List Dir) (c : Dir)
+    (hpre : ∀ x ∈ pre, x.load ≠ .loaded ∧ x.django = false) (hc : c.load = .loaded) :
+    defaultProject (pre ++ c :: post) = .config c.id := by
+  unfold defaultProject
+  generalize ({} : St) = st
+  induction pre generalizing st with
+  | nil => simp [walk, stepDir, hc]
+  | cons x xs ih =>
+    have hx := hpre x (List.mem_cons_self)
+    have hxs : ∀ y ∈ xs, y.load ≠ .loaded ∧ y.django = false := fun y hy => hpre y (List.mem_cons_of_mem _ hy)
+    have hnone : (stepDir st x).1 = none := by
+      unfold stepDir
+      have h1 := hx.1; have h2 := hx.2
+      grind
+    simp only [List.cons_append, walk]
+    rcases hs : stepDir st x with ⟨r, st'⟩
+    rw [hs] at hnone
+    simp only at hnone
+    subst hnone
+    exact ih hxs st'
+
+/-- **A package is never chosen while nothing further in qualified**: leading directories that hold an
+`__init__.py` (and no configuration) are skipped entirely - not even their `setup.py` / `manage.py`
+is looked at; the project sits above them. -/
+theorem default_project_skips_packages (pkgs rest : List Dir)
+    (h : ∀ x ∈ pkgs, x.load = .missing ∧ x.hasInit = true) :
+    defaultProject (pkgs ++ rest) = defaultProject rest := by
+  unfold defaultProject
+  induction pkgs with
+  | nil => rfl
+  | cons x xs ih =>
+    have hx := h x (List.mem_cons_self)
+    simp only [List.cons_append, walk, stepDir, hx.1, hx.2]
+    simpa using ih (fun y hy => h y (List.mem_cons_of_mem _ hy))
+
+/-- `proj/pkg/sub/mod.py` with `proj/.git`: both packages are skipped, `proj` is the project although
+`pkg` has a `setup.py` of its own -/
+example : defaultProject [⟨3, .missing, true, false, false, false⟩, ⟨2, .missing, true, false, false, true⟩,
+    ⟨1, .missing, false, false, false, true⟩, ⟨0, .missing, false, false, false, false⟩] = .probable 1 := by
+  decide
+
+end DefaultProject
 
 /-! ## non-vacuity: the hypotheses above are satisfiable by non-trivial inputs -/
 
